@@ -258,9 +258,14 @@ def partitions(tier):
                          ('hybrid', 'b', 'mix'),
                          ('hierarchical', 'g', 'bvbool')]:
         for oracle in ('hash0', 'hash1'):
-            parts.append({'name': f'clock_{st}_{sc}_{ms}_{oracle}',
+          import itertools
+          for pin in ([()] if tier == 'quick' else
+                      list(itertools.product((0, 1), repeat=3))):
+            sfx = ('_p' + ''.join(map(str, pin))) if pin else ''
+            parts.append({'name': f'clock_{st}_{sc}_{ms}_{oracle}{sfx}',
                           'kind': 'choices',
-                          'run': make_run(st, sc, ms, oracle, tier, True),
+                          'run': make_run(st, sc, ms, oracle, tier, True,
+                                          pin),
                           'budget_s': 170 if tier == 'quick' else 850,
                           'bounds': {'strategy': st, 'script': sc,
                                      'mutators': ms, 'oracle': oracle,
